@@ -254,24 +254,25 @@ fn check_any(ctx: &mut Ctx, c: &Case, prefixes: bool) -> Result<(), String> {
 }
 
 pub fn run(ctx: &mut Ctx) {
+    let fs = ctx.first_shard();
     ctx.rule = "values built only with AuthenticatorData::new and the setters: RP IDs (ASCII, Unicode, empty, trailing dot), counters (none, 0, max, random), UP/UV/BE/BS flag sets, AAGUIDs, credential ids of length {0,1,15,16,64,255,256,1023,1024,65534,65535} and random up to 70000 (above 65535: constructor guard), EC2 keys, both extension output types with every optional member; for a subset every strict prefix and single-byte corruptions of the encoding. Non-trivial = AT or ED section present (or the constructor guard); distinct by value.".into();
     ctx.assumptions = vec![
         "AT and ED are controlled by the section setters; set_flags is only given UP/UV/BE/BS (setting AT/ED by hand without a section is outside the statement's 'built with the constructor and setters' and is not generated)".into(),
         "trailing bytes after the last section are not constrained by the statement".into(),
         "corrupted encodings: only 'no panic' and decode/encode/decode fixpoint are asserted (a corruption can yield another valid encoding)".into(),
     ];
-    let n = ctx.tier.pick(4_000u32, 150_000u32);
+    let n = ctx.tier.pick(4_000u32, 2_000_000u32);
     match search(ctx, 12, n, case(), |ctx, c| check_any(ctx, c, false)) {
         Search::Pass => {}
         Search::Fail(c, msg) => ctx.violation("values", json!(c), &msg),
     }
-    let n = ctx.tier.pick(300u32, 6_000u32);
+    let n = ctx.tier.pick(300u32, 60_000u32);
     match search(ctx, 13, n, case(), |ctx, c| check_any(ctx, c, true)) {
         Search::Pass => {}
         Search::Fail(c, msg) => ctx.violation("mutations", json!(c), &msg),
     }
     // boundary ids, always
-    for len in [0usize, 1, 15, 16, 64, 255, 256, 1023, 1024, 4096, 65534, 65535, 65536, 70000] {
+    for len in [0usize, 1, 15, 16, 64, 255, 256, 1023, 1024, 4096, 65534, 65535, 65536, 70000].into_iter().filter(|_| fs) {
         let c = Case { rp_id: "example.com".into(), counter: Some(7), flags: 0x05, att: Some(([9; 16], len, 3, vec![1; 32], vec![2; 32])), ext: Ext::Make(Some(true), None) };
         if let Err(e) = check_any(ctx, &c, false) {
             ctx.violation("boundary", json!(c), &e);
